@@ -47,7 +47,7 @@ def _draw(rng, cls=None, spec=None, solver=None, shape=None):
     cls = cls or rng.choice(CLASSES, p=[0.4, 0.25, 0.15, 0.2])
     spec = spec or str(rng.choice(SPECS))
     solver = solver or str(rng.choice(SOLVERS, p=[0.5, 0.3, 0.2]))
-    shape = shape or str(rng.choice(["tall", "wide", "p1", "big", "vtall"], p=[0.4, 0.28, 0.08, 0.12, 0.12]))
+    shape = shape or str(rng.choice(["tall", "wide", "p1", "big", "vtall", "huge"], p=[0.4, 0.27, 0.08, 0.12, 0.11, 0.02]))
     if shape == "tall":
         n = int(rng.integers(6, 41))
         p = int(rng.integers(2, max(3, min(n - 1, 24)) + 1))
@@ -57,6 +57,13 @@ def _draw(rng, cls=None, spec=None, solver=None, shape=None):
     elif shape == "p1":
         n = int(rng.integers(4, 30))
         p = 1
+    elif shape == "huge":  # either side of the 500 limit of the 'auto' policy, and grids of ~1000 cells
+        if rng.random() < 0.5:
+            n = int(rng.integers(470, 540))
+            p = int(rng.integers(3, 14))
+        else:
+            n = int(rng.integers(8, 40))
+            p = int(rng.choice([480, 504, 520, 900, 1200]))
     elif shape == "vtall":  # n >= 10 p: the regime where a covariance-eigh shortcut would be tempting
         p = int(rng.integers(2, 9))
         n = int(rng.integers(10 * p, 14 * p + 10))
@@ -107,6 +114,11 @@ def cases(tier, seed):
                     rng = gen.rng_for(1001, i)
                     out.append(_draw(rng, cls, spec, solver, shape))
                     i += 1
+    for cls in CLASSES:
+        for solver in SOLVERS:
+            for rep in range(2):
+                out.append(_draw(gen.rng_for(1002, i), cls, "geometric", solver, "huge"))
+                i += 1
     nrand = 650 if tier == "quick" else 24000
     for j in range(nrand):
         out.append(_draw(gen.rng_for(seed, 1, j)))
